@@ -3,7 +3,7 @@ import math
 from fractions import Fraction
 
 import coqfmt as cf
-from props import c09, nncommon as nn
+from props import c09, c10, nncommon as nn
 
 RULE = ("cases = random conjunctive provenance hypergraphs (2-5 units, 1-5 rows: shared units, rows needing several "
         "units, units owning several rows, units owning no row; also one-unit-per-row and map/fork shapes routed "
@@ -11,12 +11,13 @@ RULE = ("cases = random conjunctive provenance hypergraphs (2-5 units, 1-5 rows:
         "points, DISTINCT distances per point, generated utility tables and null vectors: "
         "ShapleyImportance('neighbor', nn_k=K) vs the loop model over the counting specification and vs the Shapley "
         "value by definition of the KNN game, inside Coq; plus, for the real accuracy utility, equality with "
-        "'bruteforce' over KNeighborsClassifier(K); instances with equal K / class count and growing unit counts run "
+        "'bruteforce' over KNeighborsClassifier(K); the diagram and row locations compile() returns for the instance are "
+        "dumped and must satisfy valid_compiled inside Coq (hypothesis of C02_add_validated_is_shapley); instances with equal K / class count and growing unit counts run "
         "back to back in one process; one-unit instances are the known finding F12; non-trivial = two units differ")
 EXHAUSTIVE = {"quick": False, "thorough": False}
 SHARD = 6
 JOBS = 14
-COQ_IMPORTS = "From DS Require Import Model.ADD Spec.Count."
+COQ_IMPORTS = "From DS Require Import Model.ADD Spec.Count Model.Oracle."
 TRUSTED = ["for rows needing several units the theorem is about the loop model over the counting SPECIFICATION of C09; the "
            "ADD-based oracle equals that specification by C09_oracle_exact given a valid compiled diagram; compile()'s "
            "leaf/factor case is validated per instance, not proved (chain case: proved end to end)",
@@ -115,7 +116,16 @@ def run_one(c):
     imp.fit(X, np.array(c["labels"]), provenance=prov)
     s = np.asarray(imp.score(np.arange(ds["n_test"], dtype=float).reshape(-1, 1), np.array(ds["y_test"])), dtype=float)
     assert s.shape == (c["n"],), s.shape
-    return {"scores": [v.hex() for v in s.tolist()]}
+    out = {"scores": [v.hex() for v in s.tolist()]}
+    if c["n"] >= 2:
+        # the diagram and row locations compile() produces for this provenance and tally type (deterministic; the same
+        # call ShapleyOracle.__init__ makes), validated inside Coq by valid_compiled
+        from datascope.importance.oracle import ATally, compile as compile_prov
+        atype = ATally[c["n"] - 1, k, c["C"]]
+        add, locations = compile_prov(prov, atype)
+        out["add"] = c10.dump(add, {"kind": "tally", "n": c["n"] - 1, "k": k, "c": c["C"]})
+        out["locs"] = [[[int(a), int(b), bool(cc)] for (a, b, cc) in row] for row in locations]
+    return out
 
 
 def run_impl(c):
@@ -140,10 +150,16 @@ def emit_one(c, o):
     else:
         dists, U, nulls, bf = c["dists"], c["U"], c["nulls"], "None"
     scale = 1 + max([abs(v) for col in U for v in col] + [abs(v) for v in nulls])
-    return "(mkCase %s %s %s %s %s %s %s %s %s %s %s)" % (
+    if "add" in o:
+        t = {"kind": "tally", "n": c["n"] - 1, "k": c["K"], "c": c["C"]}
+        locs = cf.lst([cf.lst(["(%s, %s, %s)" % (cf.nat(a), cf.nat(b), cf.b(cc)) for a, b, cc in row]) for row in o["locs"]])
+        compiled = "(Some (%s, %s))" % (c10.add_term(o["add"], t), locs)
+    else:
+        compiled = "None"
+    return "(mkCase %s %s %s %s %s %s %s %s %s %s %s %s)" % (
         cf.nat(c["n"]), cf.nat(c["K"]), cf.nat(c["C"]), cf.lst([cf.nats(r) for r in c["rows"]]), cf.nats(c["labels"]),
         cf.lst([cf.qs(d) for d in dists]), cf.lst([cf.qs(u) for u in U]), cf.qs(nulls), cf.qq(Fraction(scale) / 2 ** 36),
-        cf.qs(scores), bf)
+        cf.qs(scores), bf, compiled)
 
 
 def emit(c, o):
@@ -212,9 +228,11 @@ MANIFEST = {
             "point, C02_rank_count (exactly one row of rank K), C02_max_cardinality; C02_add_chain_is_shapley -- END TO "
             "END for chain-compiled provenance (every row needs one unit: one-unit-per-row and map/fork pipelines, >= 2 "
             "units): the loop over the MODEL of the ADD-based oracle (compile, boundary diagrams, restrict, sum, "
-            "modelcount) is the Shapley value. PARTIAL in one link only: for rows needing several units (join) the "
-            "oracle is exact by C09_oracle_exact given a valid compiled diagram in unit order, but compile()'s "
-            "leaf/factor construction is validated per instance, not proved. Tied to the code at API level on every run: "
+            "modelcount) is the Shapley value; C02_add_validated_is_shapley -- the same for ANY conjunctive provenance "
+            "(rows needing several units, any unit order) whenever the boolean valid_compiled accepts the compiled "
+            "diagram and row locations; C02_sorted_definition_agrees. PARTIAL in one link only: compile()'s leaf/factor "
+            "construction is not modelled -- its output for every instance is dumped and valid_compiled is evaluated "
+            "on it inside Coq (translation validation backed by the theorem). Tied to the code at API level on every run: "
             "ShapleyImportance('neighbor', nn_k=K) on conjunctive provenance hypergraphs vs the loop model and vs the "
             "Shapley value by definition of the KNN game (rank-based and sort-based definitions), inside Coq; and vs "
             "'bruteforce' over KNeighborsClassifier(K).",
